@@ -29,7 +29,7 @@ MANIFEST = {
 REQUIRED = ["KV.C18.kSpaces_table", "KV.C18.initMapSize_observed", "KV.C18.window_inv", "KV.C18.op_transparent",
             "KV.C18.transcript_fn", "KV.C18.after_eof", "KV.C18.shift_progress", "KV.C18.ops_terminate",
             "KV.C18.compressed_concat", "KV.C18.tokenizer_total", "KV.C18.lineIterator_total",
-            "KV.C18.Old.offset_after_compaction", "KV.C18.Old.spurious_eof", "KV.C18.Old.not_transparent"]
+            "KV.C18.integer_grammars_ok", "KV.C18.nan_not_prefix_determined", "KV.C18.Old.offset_after_compaction", "KV.C18.Old.spurious_eof", "KV.C18.Old.not_transparent"]
 
 UTIL_SRCS = ["file_piece.cc", "read_compressed.cc", "file.cc", "mmap.cc", "exception.cc", "ersatz_progress.cc",
              "spaces.cc", "scoped.cc", "parallel_read.cc", "integer_to_string.cc"]
@@ -382,8 +382,31 @@ def eval_case(ctx, T, r, plain, ops, backends, found_classes, sample=False, raws
             b = compare_block(cand_ops, o1, o2, exact)
             return b is not None and classify(hk, codec, cand_ops[b[0]] if b[0] >= 0 else "open", b[2], b[4]) == cls
         small = ops[:i + 1]
+        rplain, rraw = plain, raw
         if key is None and i >= 0:
             small = stream.ddmin(small, still_fails, max_tests=60)
+            if codec == "plain":
+                # shrink the input: shortest failing prefix by halving, then drop leading pages' worth of bytes is not
+                # attempted (offsets matter); the script is kept
+                def fails_with(pfx):
+                    h2, d2 = block_lines(pfx, pfx, hk, mk, mb, sm, small, "new" if exact else "spec")
+                    r1, o1, _ = T.harness(h2, 120)
+                    r2, o2, _ = T.driver(d2, 120)
+                    if r1 != 0 or r2 != 0:
+                        return False
+                    b = compare_block(small, o1, o2, exact)
+                    return b is not None and classify(hk, codec, small[b[0]] if b[0] >= 0 else "open", b[2], b[4]) == cls
+                lo, hi = 0, len(plain)       # invariant: plain[:hi] fails
+                for _ in range(14):
+                    if hi - lo <= 1:
+                        break
+                    mid = (lo + hi) // 2
+                    if fails_with(plain[:mid]):
+                        hi = mid
+                    else:
+                        lo = mid
+                if hi < len(plain):
+                    rplain = rraw = plain[:hi]
         what = {"spec": "implementation deviates from the whole-string spec",
                 "model": "implementation deviates from the window model (spec agrees)",
                 "backends": "backends disagree with each other",
@@ -393,15 +416,22 @@ def eval_case(ctx, T, r, plain, ops, backends, found_classes, sample=False, raws
             what += "; the implementation follows the window model exactly, so the deviation is in what the model takes as a parameter (the number grammar: result not a function of the token alone)"
         elif follows:
             what += "; the implementation follows the window model variant %r = the faithful model of the unrepaired code (old: neither repair, H: only Offset()-after-compaction repaired, I: only the peek/get EOF test repaired; see Properties/C18 section Old)" % follows
-        hrep, drep = block_lines(plain, raw, hk, mk, mb, sm, small, "new" if exact else "spec")
-        rpath = os.path.join(ctx.replay_dir, "data_%s.bin" % sha(raw))
+        rpath = os.path.join(ctx.replay_dir, "data_%s.bin" % sha(rraw))
         os.makedirs(ctx.replay_dir, exist_ok=True)
         with open(rpath, "wb") as f:
-            f.write(raw)
+            f.write(rraw)
+        if rraw is not raw:
+            # impl / spec lines of the shrunk case
+            h2, d2 = block_lines(rplain, rraw, hk, mk, mb, sm, small, "new" if exact else "spec")
+            _, o1, _ = T.harness(h2, 120)
+            _, o2, _ = T.driver(d2, 120)
+            b = compare_block(small, o1, o2, exact)
+            if b is not None:
+                _, _, impl, model, spec = b
         rep = {"stream": "filepiece", "class": cls, "backend": name, "harness_kind": hk, "codec": codec, "min_buffer": mb,
                "shim": {"mode": sm[0], "seed": sm[1], "span": sm[2]}, "ops": small, "first_bad_op_index_in_full_script": i,
                "impl": impl, "model": model, "spec": spec, "follows_variant": follows, "input_file": rpath,
-               "input_len": len(raw), "plain_len": len(plain),
+               "input_len": len(rraw), "plain_len": len(rplain), "unshrunk_plain_len": len(plain),
                "replay_cmd": "printf '%%s\\n' 'open %s %d %d %d %d' <ops…> after 'data <hex of input_file>' | LD_PRELOAD=<shim_read.so> <harness c18> ; "
                              "or python3 check.py C18 --replay <this file>" % (hk, mb, sm[0], sm[1], sm[2])}
         if ctx.violation(what, rep, key=key):
